@@ -369,8 +369,8 @@ fn impl_fns(imp: &ItemImpl) -> impl Iterator<Item = &ImplItemFn> {
 struct BlockRec {
     name: String,
     cfg: Value,
-    /// (root, methods, read_all, read_all of the async twin) once the impl has been seen.
-    body: Option<(bool, Vec<Value>, Vec<Value>, Vec<Value>)>,
+    /// (root, methods, read_all, read_all of the async twin - or why it could not be read) once the impl has been seen.
+    body: Option<(bool, Vec<Value>, Vec<Value>, Result<Vec<Value>, String>)>,
 }
 
 impl BlockRec {
@@ -387,8 +387,12 @@ impl BlockRec {
         });
         // `read_all_registers_async` is read with the same reader (`.await` is peeled off like `?`); the model has one
         // list, so the twin's list is reported only where it is not the blocking one's
-        if read_all_async != read_all {
-            v["read_all_async"] = Value::Array(read_all_async);
+        // (an async body written in a form the reader does not know is reported as such - the rest of the facts stays usable,
+        // so that the compiled probe can still run the twin and look for a failing index)
+        match read_all_async {
+            Ok(list) if list == read_all => {}
+            Ok(list) => v["read_all_async"] = Value::Array(list),
+            Err(e) => v["read_all_async"] = json!({"unreadable": e}),
         }
         Ok(v)
     }
@@ -440,10 +444,10 @@ fn top_level_impl(imp: &ItemImpl, blocks: &mut [BlockRec], enums: &mut [EnumRec]
     }
 }
 
-fn block_impl(imp: &ItemImpl, block_name: &str) -> Res<(bool, Vec<Value>, Vec<Value>, Vec<Value>)> {
+fn block_impl(imp: &ItemImpl, block_name: &str) -> Res<(bool, Vec<Value>, Vec<Value>, Result<Vec<Value>, String>)> {
     let mut root: Option<bool> = None;
     let mut seen_interface = false;
-    let mut read_all_async: Option<Vec<Value>> = None;
+    let mut read_all_async: Option<Result<Vec<Value>, String>> = None;
     let mut read_all: Option<Vec<Value>> = None;
     let mut methods = Vec::new();
 
@@ -460,9 +464,8 @@ fn block_impl(imp: &ItemImpl, block_name: &str) -> Res<(bool, Vec<Value>, Vec<Va
                 );
             }
             "read_all_registers_async" => {
-                read_all_async = Some(
-                    read_all_body(&f.block).map_err(|e| format!("block `{block_name}`: read_all_registers_async: {e}"))?,
-                );
+                read_all_async =
+                    Some(read_all_body(&f.block).map_err(|e| format!("block `{block_name}`: read_all_registers_async: {e}")));
             }
             _ => {
                 methods.push(block_method(f).map_err(|e| format!("block `{block_name}`: method `{fname}`: {e}"))?);
